@@ -109,6 +109,14 @@ func ChildMain() {
 		say("total %d", mutCount.Load())
 		w.closeDB()
 		os.Exit(0)
+	case "race":
+		var rc RaceCase
+		if err := json.Unmarshal(b, &rc); err != nil {
+			say("infra cannot read race case: %v", err)
+			os.Exit(3)
+		}
+		runRaceProgram(rc, dir)
+		os.Exit(0)
 	case "segment":
 		// C05: rebuild the model for ops[:from] without touching the database, open other databases
 		// first, then run ops[from:to] with full read-back against the existing directory.
